@@ -29,7 +29,7 @@ from .realeval import ev, close
 
 INVS = {
     "prq": ["InvPRInRange", "InvPRScaleInvariant", "InvPRExtremes", "InvPQInRange", "InvPQExtremes", "InvAlignUniform"],
-    "divcurl": ["InvNoTie", "InvLinearField", "InvDivCurlShift"],
+    "divcurl": ["InvNoTie", "InvFastImage", "InvLinearField", "InvDivCurlShift"],
     "vib": ["InvVibSumRule", "InvVibFreqScaling"],
     "decomp": ["InvLParallelQ", "InvTOrthogonalQ", "InvPartsAddUp", "InvSqSplits", "InvMinusQ"],
     "corr": ["InvCorrSplits", "InvCorrLagZero"],
